@@ -22,7 +22,7 @@ __CPROVER_ensures(g_exits == 1)
 void api_start(fsm_t* self, event_t initial_event)
 __CPROVER_requires(__CPROVER_is_fresh(self, sizeof(*self)) && EV_EQ(initial_event, g_evt) && g_entries == 0)
 __CPROVER_assigns(g_entries, self->m_running)
-__CPROVER_ensures(g_entries == (__CPROVER_old(self->m_running) ? 0 : 1))          /*@ob C03.start-enters-the-machine-exactly-once-and-is-a-no-op-while-running */
+__CPROVER_ensures(g_entries == (__CPROVER_old(self->m_running) ? 0 : 1))          /*@ob C03,C02.start-enters-the-machine-exactly-once-and-is-a-no-op-while-running */
 __CPROVER_ensures(self->m_running)
 ;
 #endif
@@ -30,7 +30,7 @@ __CPROVER_ensures(self->m_running)
 void api_stop(fsm_t* self, event_t final_event)
 __CPROVER_requires(__CPROVER_is_fresh(self, sizeof(*self)) && EV_EQ(final_event, g_evt) && g_exits == 0)
 __CPROVER_assigns(g_exits, self->m_running)
-__CPROVER_ensures(g_exits == (__CPROVER_old(self->m_running) ? 1 : 0))            /*@ob C03.stop-exits-the-active-configuration-exactly-once */
+__CPROVER_ensures(g_exits == (__CPROVER_old(self->m_running) ? 1 : 0))            /*@ob C03,C02.stop-exits-the-active-configuration-exactly-once */
 __CPROVER_ensures(!self->m_running)                                               /*@ob C03.stopped-machine-is-not-running */
 ;
 #endif
@@ -59,7 +59,7 @@ static event_t normalize_event(event_t e) { return e; }      /* identity except 
 void policy_defer_event(fsm_t* self, event_t e, _Bool next_rtc_seq)
 __CPROVER_requires(EV_EQ(e, g_evt))                                               /*@ob C04,C18.enqueued-event-keeps-type-and-payload */
 __CPROVER_requires(!next_rtc_seq)                                                 /*@ob C04.enqueued-event-is-eligible-at-the-next-drain */
-__CPROVER_requires(g_stored == 0)                                                 /*@ob C04.enqueue-stores-exactly-one-occurrence */
+__CPROVER_requires(g_stored == 0)                                                 /*@ob C04,C20.enqueue-stores-exactly-one-occurrence */
 __CPROVER_assigns(g_stored)
 __CPROVER_ensures(g_stored == 1)
 ;
@@ -80,7 +80,7 @@ __CPROVER_ensures(g_pcalls2 == 1 && 0 <= g_pret2 && g_pret2 <= 7 && (int)__CPROV
 process_result api_process_event(fsm_t* self, event_t event)
 __CPROVER_requires(__CPROVER_is_fresh(self, sizeof(*self)) && EV_EQ(event, g_evt) && g_pcalls2 == 0)
 __CPROVER_assigns(g_pcalls2, g_pret2)
-__CPROVER_ensures(g_pcalls2 == 1 && (int)__CPROVER_return_value == g_pret2)       /*@ob C06.process-event-returns-the-result-of-the-step */
+__CPROVER_ensures(g_pcalls2 == 1 && (int)__CPROVER_return_value == g_pret2)       /*@ob C06,C01.process-event-returns-the-result-of-the-step */
 ;
 #endif
 /* ---- exit_pt<ExitPseudostate>::forward_event / call_enqueue_event (C09): the second half of a compound transition through an exit point
@@ -144,6 +144,6 @@ __CPROVER_ensures(g_stored == 1)
 void api_defer_event(fsm_t* self, event_t event)
 __CPROVER_requires(__CPROVER_is_fresh(self, sizeof(*self)) && EV_EQ(event, g_evt) && g_stored == 0)
 __CPROVER_assigns(g_stored)
-__CPROVER_ensures(g_stored == 1)                                                                           /*@ob C05.defer-event-stores-exactly-one-occurrence */
+__CPROVER_ensures(g_stored == 1)                                                                           /*@ob C05,C20.defer-event-stores-exactly-one-occurrence */
 ;
 #endif
